@@ -214,6 +214,9 @@ def run(pid, tier, seed, replay=None):
         from . import api_scen, c_api
         pscs = [x for x in api_scen.fam_pipelines(seed, tier == "thorough")
                 if x["term"] in ("capture", "communicate") and (x.get("stream") or x["nlines"] >= 20000)]
+        # ... and single commands / pipelines run through capture() with much input, against children that exit early,
+        # read little, or close their outputs before they read their input
+        pscs += [x for x in api_scen.fam_handles(seed, False) if x["handle"] in ("capture", "capture_data", "pl_capture", "pl_capture_data")]
         presults, pstates, pblocks, pnote = c_api.run_api(pid, tier, seed, pscs, "C01pl")
         pnew, pknown, pothers, _, _ = c_api.classify(pid, pscs, presults, pblocks, PREFIX[pid], "api")
         uniq += pnew
